@@ -25,7 +25,18 @@ var (
 	errInjectedFlush = errors.New("injected flush error")
 	// an i/o failure as the net package reports it when the connection was closed under the reader
 	errInjectedClosed = fmt.Errorf("%w: %w", errInjectedIO, net.ErrClosed)
+	// an i/o failure whose cause is a context error of the transport's own (a tunnel's keep-alive), not the caller's
+	errInjectedCtxCause = fmt.Errorf("%w: %w", errInjectedIO, context.DeadlineExceeded)
+	// an i/o failure that calls itself a timeout (connection timed out) without being a read deadline
+	errInjectedTimedOut error = timedOutErr{}
 )
+
+type timedOutErr struct{}
+
+func (timedOutErr) Error() string   { return "read: connection timed out" }
+func (timedOutErr) Timeout() bool   { return true }
+func (timedOutErr) Temporary() bool { return false }
+func (timedOutErr) Unwrap() error   { return errInjectedIO }
 
 type readEv struct {
 	kind string // d t e x c
@@ -52,6 +63,11 @@ type scriptedConn struct {
 	shortWrite  bool // the first Write takes all but the last byte
 	partialFail bool // a failing Write reports that it took some of the bytes before it failed
 	noDeadlines bool // SetReadDeadline is not supported by this transport (a tunnel, a pipe): it reports an error
+	ioErrKind   int  // which i/o error the script's failures are (0 plain, 1 wraps a context error, 2 calls itself a timeout)
+	pace        time.Duration
+	began       time.Time     // first Write
+	total       time.Duration // the client's total read timeout
+	lateReads   int           // Read calls that STARTED later than total+50ms after the write
 	writes      int
 	lastErr     error // the error value the last Read returned
 	slowBy      time.Duration
@@ -62,6 +78,9 @@ func (c *scriptedConn) Write(p []byte) (int, error) {
 	defer c.mu.Unlock()
 	c.written = append(c.written, p...)
 	c.writes++
+	if c.began.IsZero() {
+		c.began = time.Now()
+	}
 	if c.writeFails {
 		if c.partialFail && len(p) > 1 {
 			return len(p) / 2, errInjectedWrite
@@ -76,6 +95,9 @@ func (c *scriptedConn) Write(p []byte) (int, error) {
 
 func (c *scriptedConn) Read(p []byte) (int, error) {
 	c.mu.Lock()
+	if c.total > 0 && !c.began.IsZero() && time.Since(c.began) > c.total+50*time.Millisecond {
+		c.lateReads++
+	}
 	serve := func(data []byte, err error, tag string) (int, error) {
 		c.lastErr = err
 		n := copy(p, data)
@@ -126,6 +148,16 @@ func (c *scriptedConn) Read(p []byte) (int, error) {
 			n = len(p)
 		}
 		return serve(ev.data[:n], nil, "nil")
+	case "p":
+		// a slow device: these bytes arrive a third of the total read timeout after the read was started
+		c.mu.Unlock()
+		time.Sleep(c.pace)
+		c.mu.Lock()
+		n := len(ev.data)
+		if n > len(p) {
+			n = len(p)
+		}
+		return serve(ev.data[:n], nil, "nil")
 	case "d":
 		n := len(ev.data)
 		if n > len(p) {
@@ -155,6 +187,12 @@ func (c *scriptedConn) Read(p []byte) (int, error) {
 		}
 		if c.closedErr {
 			return serve(ev.data[:n], errInjectedClosed, "io")
+		}
+		switch c.ioErrKind {
+		case 1:
+			return serve(ev.data[:n], errInjectedCtxCause, "io")
+		case 2:
+			return serve(ev.data[:n], errInjectedTimedOut, "io")
 		}
 		return serve(ev.data[:n], errInjectedIO, "io")
 	case "c":
@@ -304,6 +342,14 @@ func parseScript(s string) (evs []readEv, writeFails bool, preCancel bool) {
 func clientErrStr(err error) string {
 	if err == nil {
 		return "nil"
+	}
+	if errors.Is(err, errInjectedIO) {
+		// the transport's own failure (whatever it wraps): the library's client error wrapping it
+		var ce *modbus.ClientError
+		if errors.As(err, &ce) {
+			return "err client:io"
+		}
+		return "err io-NOT-WRAPPED-IN-THE-CLIENT-ERROR"
 	}
 	if errors.Is(err, context.Canceled) || errors.Is(err, context.DeadlineExceeded) {
 		var ce *modbus.ClientError
@@ -515,6 +561,10 @@ func runDoOnce(kind string, hooks bool, flusher string, reqSpec string, script s
 		closedErr: variantOf("x"+reqSpec+script)%2 == 1, quietStall: variantOf("q"+reqSpec+script)%2 == 1,
 		shortWrite: kind == "s" && variantOf("sw"+reqSpec+script)%3 == 1, partialFail: variantOf("pf"+reqSpec+script)%2 == 1,
 		noDeadlines: kind != "s" && variantOf("nd"+reqSpec+script)%5 == 0}
+	if v := variantOf("iok"+reqSpec+script) % 6; v == 1 || v == 2 {
+		conn.ioErrKind = v
+	}
+	paced := strings.Contains(";"+script, ";p:")
 	rec := &hookRec{conn: conn}
 	failedConnect := strings.HasPrefix(reqSpec, "ncf:")
 	notConnected := strings.HasPrefix(reqSpec, "nc:") || failedConnect
@@ -542,7 +592,7 @@ func runDoOnce(kind string, hooks bool, flusher string, reqSpec string, script s
 	stalls := true
 	if len(evs) > 0 {
 		last := evs[len(evs)-1].kind
-		stalls = last == "d" || last == "t" || last == "td" || (last == "e" && kind == "s")
+		stalls = last == "d" || last == "p" || last == "t" || last == "td" || (last == "e" && kind == "s")
 	}
 	if stalls {
 		readTimeout = time.Duration(scale) * 120 * time.Millisecond
@@ -563,8 +613,15 @@ func runDoOnce(kind string, hooks bool, flusher string, reqSpec string, script s
 	if scale < 0 {
 		readTimeout = 0
 	}
+	// "not configured" said with a negative number: the defaults apply (2 s), as with zero
+	negTimeout := !stalls && !paced && scale == 1 && kind != "s" && variantOf("neg"+reqSpec+script)%7 == 0
+	conn.pace, conn.total = readTimeout/3, readTimeout
+	if !paced {
+		conn.total = 0
+	}
 	var resp packet.Response
 	var err error
+	var took time.Duration
 	closeHangs := false
 	// what the transport and the hooks saw during THE call (a follow-up call is made afterwards on the same client)
 	var snap struct {
@@ -598,6 +655,9 @@ func runDoOnce(kind string, hooks bool, flusher string, reqSpec string, script s
 	var freshDo func(evs []readEv) (packet.Response, error)
 	followUp := func(again func() (packet.Response, error)) {
 		takeSnap()
+		if paced {
+			return
+		}
 		if err != nil && scale > 0 && hooks && len(reply) > 0 && clientErrStr(err) == "err ctx" {
 			// the call was abandoned by its caller; the client is used again: the hook still hears of every read the
 			// transport serves (nothing is read on the quiet)
@@ -846,10 +906,15 @@ func runDoOnce(kind string, hooks bool, flusher string, reqSpec string, script s
 				}
 				return modbus.NewSerialClient(port2, modbus.WithSerialReadTimeout(readTimeout)).Do(context.Background(), req)
 			}
+			t0 := time.Now()
 			resp, err = c.Do(ctx, req)
+			took = time.Since(t0)
 			followUp(func() (packet.Response, error) { return c.Do(context.Background(), req) })
 			closeHangs = closeBlocks(c.Close)
 			return
+		}
+		if negTimeout {
+			readTimeout = -1
 		}
 		conf := modbus.ClientConfig{
 			ReadTimeout:     readTimeout,
@@ -857,6 +922,10 @@ func runDoOnce(kind string, hooks bool, flusher string, reqSpec string, script s
 		}
 		if variantOf("wt"+reqSpec+script)%2 == 1 {
 			conf.WriteTimeout = time.Hour // the read timeout is the one that bounds the wait for a reply
+		}
+		if negTimeout {
+			conf.WriteTimeout = -1
+			readTimeout = 2 * time.Second // what the client uses from here on
 		}
 		if hooks {
 			conf.Hooks = rec
@@ -905,7 +974,9 @@ func runDoOnce(kind string, hooks bool, flusher string, reqSpec string, script s
 			}
 			return c2.Do(context.Background(), req)
 		}
+		t0 := time.Now()
 		resp, err = c.Do(ctx, req)
+		took = time.Since(t0)
 		followUp(func() (packet.Response, error) { return c.Do(context.Background(), req) })
 		closeHangs = closeBlocks(c.Close)
 	}()
@@ -988,7 +1059,19 @@ func runDoOnce(kind string, hooks bool, flusher string, reqSpec string, script s
 	if notConnected || reqSpec == "nil" {
 		cs = "-"
 	}
-	early := snap.unread && strings.Contains(outcome, "client:timeout")
+	// a total read timeout that fired while the transport still had bytes to deliver says that the process was not given
+	// the CPU - unless it came back long before that timeout can have passed
+	early := snap.unread && strings.Contains(outcome, "client:timeout") && took >= readTimeout*7/10
+	if paced {
+		// (the reads a slow device is given time for depend on the machine: only the outcome is compared)
+		conn.mu.Lock()
+		late := conn.lateReads
+		conn.mu.Unlock()
+		if late >= 2 {
+			outcome = fmt.Sprintf("READS-STARTED-AFTER-THE-TOTAL-READ-TIMEOUT-HAD-PASSED-%d-or-more ", 2) + outcome
+		}
+		return outcome, "-", "-", false
+	}
 	return outcome, ls, cs, early
 }
 
